@@ -300,7 +300,7 @@ def write_output_document(
         doc.prepare_for_dump(yaml_editor, args.output)
         dumps.append(doc.data)
 
-    if args.backup:
+    if args.backup and exists(args.overwrite):
         backup_file = args.overwrite + ".bak"
         log.verbose(
             "Saving a backup of {} to {}."
